@@ -68,6 +68,18 @@ def as_arg(it):
 def interpret_paths(cmds, fname, actual_args, extra_vars, isdir):
     """DFS over symbolic if-conditions: returns list of (path_condition, execute_process calls)"""
     results = []
+
+    def decide(cond, decisions, nd, pc):
+        """fork on a symbolic Boolean: replay a recorded decision, or explore the False branch in a sibling run and take True here"""
+        if nd < len(decisions):
+            take = decisions[nd]
+        else:
+            run(decisions + [False])
+            take = True
+            decisions = decisions + [True]
+        pc.append(cond if take else Not(cond))
+        return take, decisions, nd + 1
+
     def run(decisions):
         i = next(k for k, (n, a) in enumerate(cmds) if n == "function" and a and a[0][1] == fname)
         params = [a[1] for a in cmds[i][1][1:]]
@@ -87,10 +99,7 @@ def interpret_paths(cmds, fname, actual_args, extra_vars, isdir):
                 words = [s_ for (t, s_) in args]
                 if words[0] == "IS_DIRECTORY" and len(args) == 2:
                     (a_,) = env.expand(*args[1]); cond = isdir(as_arg(a_))
-                    if nd < len(decisions): take = decisions[nd]
-                    else:
-                        run(decisions + [False]); take = True; decisions = decisions + [True]
-                    nd += 1; pc.append(cond if take else Not(cond))
+                    take, decisions, nd = decide(cond, decisions, nd, pc)
                 elif len(words) == 3 and words[1] == "GREATER" and words[0] == "${ARGC}":
                     take = argc > int(words[2])
                 else: raise Unsupported("if(" + " ".join(words) + ")")
@@ -109,6 +118,25 @@ def interpret_paths(cmds, fname, actual_args, extra_vars, isdir):
             elif name == "list" and args and args[0][1] == "APPEND":
                 var = args[1][1]
                 env.vars[var] = env.vars.get(var, []) + flatten([x for (t, s_) in args[2:] for x in env.expand(t, s_)])
+            elif name == "list" and args and args[0][1] == "PREPEND":
+                var = args[1][1]
+                env.vars[var] = flatten([x for (t, s_) in args[2:] for x in env.expand(t, s_)]) + env.vars.get(var, [])
+            elif name == "list" and args and args[0][1] == "REMOVE_DUPLICATES" and len(args) == 2:
+                var = args[1][1]
+                keep = []
+                for e in env.vars.get(var, []):
+                    dup = False
+                    for k_ in keep:
+                        if is_string_value(e) and is_string_value(k_):
+                            same = e.as_string() == k_.as_string()
+                        else:
+                            same, decisions, nd = decide(e == k_, decisions, nd, pc)
+                        if same:
+                            dup = True
+                            break
+                    if not dup:
+                        keep.append(e)
+                env.vars[var] = keep
             elif name == "execute_process":
                 KW = {"COMMAND", "OUTPUT_VARIABLE", "ERROR_VARIABLE", "RESULT_VARIABLE", "COMMAND_ERROR_IS_FATAL", "WORKING_DIRECTORY"}
                 opts = {}; cmd = []; mode = None
